@@ -1,0 +1,83 @@
+//go:build verif
+
+package ugo
+
+import "unsafe"
+
+// Hooks for deterministic simulation, compiled only with -tags verif.
+// A nil hook is a no-op, so a verif build behaves like the ordinary build
+// until a simulator installs something.
+var (
+	// VerifHook is called at every named point with the VM (or pool) the point
+	// belongs to.
+	VerifHook func(point int, obj unsafe.Pointer)
+	// VerifPoolGet replaces the object taken from the child VM sync.Pool.
+	// It returns nil to keep the one sync.Pool returned.
+	VerifPoolGet func() *VM
+	// VerifPoolPut is told about every child VM put back to the sync.Pool.
+	VerifPoolPut func(*VM)
+)
+
+// Exported names of the points.
+const (
+	VerifLoop           = vpLoop
+	VerifRunEnter       = vpRunEnter
+	VerifRunLocked      = vpRunLocked
+	VerifRunReset       = vpRunReset
+	VerifRunExit        = vpRunExit
+	VerifAbortEnter     = vpAbortEnter
+	VerifAbortMid       = vpAbortMid
+	VerifAbortExit      = vpAbortExit
+	VerifInvokeChecked  = vpInvokeChecked
+	VerifPoolLock       = vpPoolLock
+	VerifPoolLocked     = vpPoolLocked
+	VerifPoolUnlocked   = vpPoolUnlocked
+	VerifEvalSelect1    = vpEvalSelect1
+	VerifEvalBeforeGo   = vpEvalBeforeGo
+	VerifEvalGoStart    = vpEvalGoStart
+	VerifEvalGoClosing  = vpEvalGoClosing
+	VerifEvalGoEnd      = vpEvalGoEnd
+	VerifEvalSelect2    = vpEvalSelect2
+	VerifEvalCancelSeen = vpEvalCancelSeen
+	VerifEvalWaitDone   = vpEvalWaitDone
+	VerifEvalReturn     = vpEvalReturn
+)
+
+func verifPoint(p int, vm *VM) {
+	if h := VerifHook; h != nil {
+		h(p, unsafe.Pointer(vm))
+	}
+}
+
+func verifPoolPoint(p int, v *vmPool) {
+	if h := VerifHook; h != nil {
+		h(p, unsafe.Pointer(v))
+	}
+}
+
+func verifPoolSwap(vm *VM) *VM {
+	if g := VerifPoolGet; g != nil {
+		if x := g(); x != nil {
+			return x
+		}
+	}
+	return vm
+}
+
+func verifPoolPut(vm *VM) {
+	if p := VerifPoolPut; p != nil {
+		p(vm)
+	}
+}
+
+// VerifNewPoolVM returns what the child VM sync.Pool creates for an empty pool.
+func VerifNewPoolVM() *VM {
+	return vmSyncPool.New().(*VM)
+}
+
+// VerifRootOf returns the root VM a (child) VM's pool belongs to.
+func VerifRootOf(vm *VM) *VM { return vm.pool.root }
+
+// VerifPoolOf returns the address of the VM's own pool, as passed to VerifHook
+// at the pool points.
+func VerifPoolOf(vm *VM) unsafe.Pointer { return unsafe.Pointer(&vm.pool) }
